@@ -11,7 +11,11 @@ import Qryn.Sql.Escape
       index `time_series_gin` (date, key, val, fingerprint, type), with ClickHouse's typing of `bitShiftLeft`;
     * `FpQuery.render` is its SQL text exactly as `sql_select` prints it (compared byte for byte with the
       `fp_sel` sub-query `TranspileLabelMatchers` emits).
-    `re pat s` stands for ClickHouse `match(s, pat)` (RE2, unanchored search); it is a parameter. Core-only. -/
+    * a matcher that accepts the empty value (`_matcher.Matches("")`) is handed to the index **inverted** and its bit must
+      stay clear (`required`; after `fix: a PromQL matcher that accepts the empty value …`): a series has no index row
+      for a label it lacks, and Prometheus reads a missing label as the empty value.
+    `re pat s` stands for ClickHouse `match(s, pat)` (RE2, unanchored search), `full pat s` for "s matches ^(?:pat)$" in the
+    regular-expression engine of the Go side (`labels.FastRegexMatcher`); both are parameters. Core-only. -/
 namespace Qryn.Prom
 open Qryn Qryn.Prom.Bits
 
@@ -29,6 +33,24 @@ structure Matcher where
   type : MatchType
   val : Bytes
 deriving DecidableEq, Repr
+
+/-- `labels.Matcher.Inverse` -/
+def MatchType.inverse : MatchType → MatchType
+  | .eq => .ne | .ne => .eq | .re => .nre | .nre => .re
+
+def opHolds (re : Bytes → Bytes → Bool) (t : MatchType) (have_ want : Bytes) : Bool :=
+  match t with
+  | .eq => have_ == want | .ne => have_ != want | .re => re want have_ | .nre => !(re want have_)
+
+/-- `_matcher.Matches("")` in `fingerprintsQuery`: the matcher accepts the empty value, i.e. a series without the label.
+    `Gen.PromSelect.absentLabel` says whether the source has that test at all (`"inverse"`) or asks a row of every
+    matcher (`"row-required"`, the code as it was written). -/
+def acceptsEmpty (full : Bytes → Bytes → Bool) (m : Matcher) : Bool :=
+  Gen.PromSelect.absentLabel == "inverse" && opHolds full m.type [] m.val
+
+/-- the matcher the label index is asked for: the inverse of a matcher that accepts the empty value -/
+def asked (full : Bytes → Bytes → Bool) (m : Matcher) : Matcher :=
+  if acceptsEmpty full m then { m with type := m.type.inverse } else m
 
 /-- `parser.LabelMatcher.GetOp` -/
 def getOp (t : MatchType) : String :=
@@ -100,37 +122,47 @@ def condsOf : List Matcher → Option (List Cond)
     | some c, some cs => some (c :: cs)
     | _, _ => none
 
-/-- `fpRequest`: SELECT fingerprint FROM table WHERE date ≥ from AND type IN (tp, 0) AND (c₀ OR c₁ …)
-    GROUP BY fingerprint HAVING groupBitOr(Σ bitShiftLeft(cᵢ, i)) == (1 << n) − 1 -/
+/-- `fpRequest`: SELECT fingerprint FROM table WHERE date ≥ from AND type IN (tp, 0) [AND (c₀ OR c₁ …)]
+    GROUP BY fingerprint [HAVING groupBitOr(Σ bitShiftLeft(cᵢ, i)) == required];
+    `required i` = matcher i needs a row (bit i of the Go `required`), otherwise `cᵢ` is the inverted matcher and its
+    bit has to stay clear. The OR is there iff some bit is required, the HAVING iff there is a matcher at all. -/
 structure FpQuery where
   table : String
   fromDate : Bytes
   tp : Int
   conds : List Cond
+  required : List Bool
 
 /-- Go: `int64((1<<len(clauses))-1)`; a shift count ≥ 64 gives 0 -/
 def havingConst (n : Nat) : Int := if n ≤ 63 then (2 : Int) ^ n - 1 else -1
 
-def fingerprintsQuery (table : String) (fromDate : Bytes) (tp : Int) (ms : List Matcher) : Option FpQuery :=
-  (condsOf ms).map (fun cs => { table := table, fromDate := fromDate, tp := tp, conds := cs })
+/-- **`fingerprintsQuery`**: every matcher that accepts the empty value inverted, its bit not required. With every bit
+    required (and a matcher at all) the Go code calls the shared `StreamSelectPlanner` (`required = (1<<n)−1`, the same
+    text — the `fpsql` stream compares both paths with this one rendering), otherwise `optionalLabelsQuery`. -/
+def fingerprintsQuery (full : Bytes → Bytes → Bool) (table : String) (fromDate : Bytes) (tp : Int) (ms : List Matcher) :
+    Option FpQuery :=
+  (condsOf (ms.map (asked full))).map (fun cs =>
+    { table := table, fromDate := fromDate, tp := tp, conds := cs, required := ms.map (fun m => !acceptsEmpty full m) })
+
+/-- `if required != 0 { fpRequest.AndWhere(sql.Or(clauses...)) }` -/
+def FpQuery.useOr (q : FpQuery) : Bool := requiredConst q.required != 0
+
+def FpQuery.admits (q : FpQuery) (r : IdxRow) : Bool :=
+  cmpBytes (fnOf "Ge") r.date q.fromDate && (r.type == q.tp || r.type == 0)
 
 def FpQuery.whereHolds (re : Bytes → Bytes → Bool) (q : FpQuery) (r : IdxRow) : Bool :=
-  cmpBytes (fnOf "Ge") r.date q.fromDate && (r.type == q.tp || r.type == 0) && q.conds.any (·.eval re r)
+  q.admits r && (!q.useOr || q.conds.any (·.eval re r))
 
 def distinctFps (rows : List IdxRow) : List Nat := (rows.map (·.fp)).eraseDups
 
-/-- meaning of the query over the index rows; `W` = bit width of the operand of `bitShiftLeft` -/
+/-- meaning of the query over the index rows; `W` = bit width of the operand of `bitShiftLeft`; without a matcher
+    there is neither the OR nor the HAVING -/
 def FpQuery.eval (re : Bytes → Bytes → Bool) (W : Nat) (q : FpQuery) (tbl : List IdxRow) : List Nat :=
-  let rows := tbl.filter (q.whereHolds re)
-  (distinctFps rows).filter (fun f =>
-    let grp := rows.filter (fun r => r.fp == f)
-    ((groupOrW W (grp.map (fun r => q.conds.map (·.eval re r))) : Nat) : Int) == havingConst q.conds.length)
+  if q.conds.isEmpty then distinctFps (tbl.filter q.admits)
+  else bitsetSelectGen W q.admits (q.conds.map (fun c r => c.eval re r)) q.useOr
+    (fun x => ((x : Nat) : Int) == requiredConst q.required) (·.fp) tbl
 
 /-! ### the direct reading -/
-
-def opHolds (re : Bytes → Bytes → Bool) (t : MatchType) (have_ want : Bytes) : Bool :=
-  match t with
-  | .eq => have_ == want | .ne => have_ != want | .re => re want have_ | .nre => !(re want have_)
 
 /-- an index row (one label pair of a series) satisfies a matcher, `re` being ClickHouse `match` applied
     to the value as `fingerprintsQuery` passes it on -/
@@ -172,11 +204,13 @@ def renderBitSet (cs : List Cond) : Bytes :=
 /-- the text of the sub-query (single spaces between clauses) -/
 def FpQuery.render (q : FpQuery) : Bytes :=
   ascii "SELECT fingerprint FROM " ++ ascii q.table ++ ascii " WHERE " ++
-    logical "and" [logical (fnOf "Ge") [ascii "date", Sql.quote q.fromDate],
-                   ascii "type IN (" ++ ascii (toString q.tp) ++ ascii ",0)",
-                   logical "or" (q.conds.map Cond.render)] ++
-    ascii " GROUP BY fingerprint HAVING " ++
-    logical "and" [logical (fnOf "Eq") [renderBitSet q.conds, ascii (toString (havingConst q.conds.length))]]
+    logical "and" ([logical (fnOf "Ge") [ascii "date", Sql.quote q.fromDate],
+                    ascii "type IN (" ++ ascii (toString q.tp) ++ ascii ",0)"] ++
+                   (if q.useOr then [logical "or" (q.conds.map Cond.render)] else [])) ++
+    ascii " GROUP BY fingerprint" ++
+    (if q.conds.isEmpty then [] else
+      ascii " HAVING " ++
+      logical "and" [logical (fnOf "Eq") [renderBitSet q.conds, ascii (toString (requiredConst q.required))]])
 
 /-! ### the raw-sample scan (`InitClickhousePlanner.Process`) -/
 
